@@ -427,8 +427,8 @@ pub fn check_gate(sc0: &Sc, acc: &mut Acc) -> Vec<String> {
         let tv = parse_semver(&target);
         // (build metadata does not make a version newer or older: the same core version is not "strictly newer")
         let with_build = format!("{target}+hotfix.1");
-        for ver in ["0.1.0", "0.4.18", "0.4.19", "0.4.20", "0.4.21", "1.0.0", "garbage", "", with_build.as_str()] {
-            for name in ["treasury", "staking", "other"] {
+        for ver in ["0.1.0", "0.4.18", "0.4.19", "0.4.20", "0.4.21", "1.0.0", "garbage", "", with_build.as_str(), "0.4.100", "0.10.0", "0.100.7", "0.4.3", "0.3.99"] {
+            for name in ["treasury", "staking", "other", "crates.io:treasury", "Treasury", "treasury "] {
                 let mut sc = sc0.clone();
                 set_version(&mut sc.w, t, name, ver);
                 let before = sc.w.store_of(t).clone();
